@@ -224,6 +224,10 @@ def run_case(seed, i, tier):
     t, roots = gen_tree(rng)
     cr = CaseResult()
     base = ["--color", "never", "--tz-offset", "+00:00"]
+    show_path = rng.random() < 0.25
+    if show_path:
+        # every line carries the path its file was found under: naming a directory must give the same paths as naming the files
+        base = base + ["-p"]
     # the arguments: directories, some explicit files (one of them possibly with a non-log suffix)
     args = list(roots)
     extra = [p for p in sorted(t.files) if p.startswith("outside/")]
@@ -252,7 +256,8 @@ def run_case(seed, i, tier):
         if r_ and r_[0] == "dir":
             return rng.choice((a + "/", "./" + a, a + "/.", "./" + a + "/", a + "//"))
         return rng.choice(("./" + a, a, ".//" + a))
-    forms.append(("respelled", base + [respell(a) for a in args], None))
+    if not show_path:      # (a respelled directory legitimately shows in the printed paths)
+        forms.append(("respelled", base + [respell(a) for a in args], None))
     stdin_nl = ("\n".join(args) + ("\n" if rng.random() < 0.5 else "")).encode("utf-8")
     forms.append(("all_on_stdin", base + ["-"], stdin_nl))
     k = rng.randrange(len(explicit) + 1)
@@ -269,7 +274,7 @@ def run_case(seed, i, tier):
     ref = None
     # the absolute part: the explicit list against a model of the merge (skipped when a path occurs twice in it: what naming
     # a file twice prints is compared across the forms only)
-    want = model_stdout(t, explicit) if len(set(explicit)) == len(explicit) else None
+    want = model_stdout(t, explicit) if (len(set(explicit)) == len(explicit) and not show_path) else None
     if want is not None:
         cr.probes["explicit_form_checked_against_model"] += 1
     for (name, argv, stdin) in forms:
@@ -308,6 +313,8 @@ def run_case(seed, i, tier):
     cr.sample = {"args": args, "explicit_expansion": explicit, "symlinks": t.links, "unfollowable_links": t.broken, "files": len(t.files)}
     if t.broken:
         cr.probes["tree_with_unfollowable_links"] += 1
+    if show_path:
+        cr.probes["paths_shown(-p)"] += 1
     if pool:
         cr.probes["walk_pool_of_%d_threads" % pool] += 1
     if len(roots) > 2:
